@@ -1440,7 +1440,12 @@ pub fn random_walk(rng: &mut StdRng, p: &Profile, t: Trace) -> (Trace, usize, Ve
             }
         } else {
             if (0..p.clients).any(|c| w.client_state(c) == St::Blocked("pol_stop")) {
-                w.step_pol(Branch::Stop);
+                // both arms of the worker's select! may be ready: a queued batch and the closer's stop signal
+                if rng.gen_bool(0.4) && w.snapshot().pol_queue_len > 0 {
+                    w.step_pol(Branch::Insert);
+                } else {
+                    w.step_pol(Branch::Stop);
+                }
             } else if w.snapshot().pol_queue_len > 0 {
                 w.step_pol(Branch::Insert);
             }
